@@ -50,14 +50,13 @@ def _loop_rule(rep, f, g, loop, param, acc_pred, rule, what):
   it = norm(loop.ast.iter)
   rep.check(it == param, rule, '%s iterates its whole input' % f.name, f.qualname, 'for ... in %s' % it,
             '%s iterates `%s`, not every entry of `%s`: entries are skipped' % (f.name, it, param), f.loc(loop.ast))
-  body = g.loop_body_nodes(loop)
+  body = [n for n in g.nodes if n.ast is not None and any(x is n.ast for x in ast.walk(loop.ast))]
   leave = [n for n in body if n.kind in ('break', 'return')]
   rep.check(not leave, rule, '%s never leaves the loop early' % f.name, f.qualname,
             '; '.join(n.text() for n in leave) or 'loop', '%s leaves the loop before all %s are consumed (%s)' % (f.name, what, '; '.join(n.text() for n in leave)),
             f.loc(leave[0].ast) if leave else f.loc())
   accs = {n for n in body if acc_pred(n)}
-  p = g.path_avoiding(loop, lambda n: n is loop or n is g.exit, lambda n: n in accs,
-                      lambda a, b, lab: not (a is loop and lab == 'exhausted') and lab != 'exc')
+  p = g.iteration_skipping(loop, accs)
   rep.check(bool(accs) and p is None, rule, 'every iteration of %s accumulates (or raises)' % f.name, f.qualname,
             'iteration without accumulate: ' + (' -> '.join(n.text()[:30] for n, _ in p[1:-1]) if p else 'none'),
             'an iteration of %s can finish without adding its %s to the result' % (f.name, what), f.loc(loop.ast))
